@@ -146,5 +146,322 @@ theorem fresh_fits (hc : CfgOK cfg) {s1 : State} (h1 : GeomInv cfg s1) (hr : Res
     · obtain ⟨y, hy⟩ := hf2 (hk rfl)
       simp only [↓reduceIte, hy, Option.map_some]; exact ⟨_, _, rfl⟩
 
+/-- what `newChunk` followed by the retry leaves behind -/
+structure FreshPost (cfg : Cfg) (size : Nat) (s1 s3 : State) (r : Except AErr (Nat × Nat)) : Prop where
+  inv : GeomInv cfg s3
+  resps : RespsOK cfg s3
+  minAlign : s3.minAlign = s1.minAlign
+  err : ∀ e, r = .error e → SameShape s1 s3 ∧ s3.cur = s1.cur
+  ok : ∀ v, r = .ok v → s3.cur = .chunk s1.chunks.length ∧
+    ∃ c, s3.chunks.map Chunk.shape = s1.chunks.map Chunk.shape ++ [Chunk.shape c] ∧ size ≤ c.size
+
+theorem freshTry_newChunk (hc : CfgOK cfg) {s1 : State} (h1 : GeomInv cfg s1) (hr : RespsOK cfg s1) (k : Kind)
+    {L : Layout} {hints : Hints} (hL : L.Valid) (hh : hints.sma = true → L.align ∣ L.size)
+    (hk : k = .range → L.align ∣ L.size) {hint size : Nat}
+    (hhint : Spec.hintFromCapacity cfg.up cfg.hdr L ≤ hint) (hs : Spec.calcSize cfg.up cfg.hdr hint = some size) :
+    (∀ s3 r, (newChunk cfg s1 size >>= freshTry cfg k L hints) = .ok (s3, r) → FreshPost cfg size s1 s3 r) ∧
+    (HeadOK cfg s1 size → ∃ s3 r, (newChunk cfg s1 size >>= freshTry cfg k L hints) = .ok (s3, r)) := by
+  obtain ⟨_, hsa, hsz, _, _⟩ := C12.calcSize_some hc.hdr hs
+  rw [newChunk_eq hc hr]
+  have key : ∀ s2 r2, newChunkSpec cfg s1 size = .ok (s2, r2) →
+      ∃ s3 r, freshTry cfg k L hints (s2, r2) = .ok (s3, r) ∧ FreshPost cfg size s1 s3 r := by
+    intro s2 r2 he
+    obtain ⟨g1, g2, g3, g4, g5, g6⟩ := newChunkSpec_ok hc h1 hr hsz he
+    cases r2 with
+    | error e =>
+      refine ⟨s2, .error e, rfl, g1, g2, g4, ?_, fun v hv => by cases hv⟩
+      intro e' _
+      exact ⟨by unfold SameShape; rw [g5 e rfl], g3⟩
+    | ok i =>
+      obtain ⟨hinv, v, s3, ht⟩ := fresh_fits hc h1 hr k hL hk hhint hs he
+      obtain ⟨hi, p, g, rest, hrs, hg, hle, hch⟩ := g6 i rfl
+      obtain ⟨t1, t2, t3, t4, t5, t6⟩ := tryCurSpec_inv hc hinv hL ht
+      refine ⟨s3, .ok v, ?_, t1, ?_, t4.trans g4, fun e he => (by cases he), ?_⟩
+      · unfold freshTry
+        simp only [tryCur_eq hc hinv k hL hh, r_ok_bind, ht]
+        rfl
+      · intro x hx
+        rw [t5] at hx
+        exact g2 x hx
+      · intro v' _
+        refine ⟨by rw [t3, hi], freshChunk cfg p g size, ?_, hle⟩
+        have : s3.chunks.map Chunk.shape = s2.chunks.map Chunk.shape := t2
+        rw [this, hch, List.map_append]
+        rfl
+  constructor
+  · intro s3 r he
+    cases hn : newChunkSpec cfg s1 size with
+    | error f => rw [hn] at he; cases he
+    | ok x =>
+      obtain ⟨s2, r2⟩ := x
+      rw [hn] at he
+      obtain ⟨s3', r', e1, e2⟩ := key s2 r2 hn
+      have : freshTry cfg k L hints (s2, r2) = .ok (s3, r) := he
+      rw [e1] at this
+      cases this
+      exact e2
+  · intro hhead
+    obtain ⟨s2, r2, hn⟩ := newChunkSpec_noFault hc hsa hhead
+    obtain ⟨s3, r, e1, _⟩ := key s2 r2 hn
+    exact ⟨s3, r, by rw [hn]; exact e1⟩
+
+/-! ## `in_another_chunk` -/
+
+/-- what a completed slow path for `L` leaves behind -/
+structure SlowPost {α : Type} (cfg : Cfg) (L : Layout) (s s' : State) (r : Except AErr α) : Prop where
+  inv : GeomInv cfg s'
+  resps : RespsOK cfg s'
+  minAlign : s'.minAlign = s.minAlign
+  /-- the arena is unallocated afterwards only if it was before and nothing happened -/
+  unalloc : s'.cur = .unallocated → s.cur = .unallocated ∧ SameShape s s'
+  /-- success: a chunk is current -/
+  cur_ok : ∀ v, r = .ok v → ∃ j, s'.cur = .chunk j
+  /-- the chunk list is the old one (up to positions and bytes), or the old one plus one new current chunk
+      that is at least as big as the size computed for it -/
+  shape : SameShape s s' ∨
+    ∃ c size, requestSize cfg s L = some size ∧
+      s'.chunks.map Chunk.shape = s.chunks.map Chunk.shape ++ [Chunk.shape c] ∧ size ≤ c.size ∧
+      s'.cur = .chunk s.chunks.length
+
+theorem SameShape.getLast_size {s s' : State} (h : SameShape s s') {last : Chunk} (hl : s'.chunks.getLast? = some last) :
+    ∃ last', s.chunks.getLast? = some last' ∧ last'.size = last.size := by
+  have := h.getLast?
+  rw [hl] at this
+  cases hl' : s.chunks.getLast? with
+  | none => rw [hl'] at this; simp at this
+  | some l' =>
+    rw [hl'] at this
+    simp only [Option.map_some, Option.some.injEq, Chunk.shape, Prod.mk.injEq] at this
+    exact ⟨l', rfl, by omega⟩
+
+theorem getLast?_isSome_of_getElem? {α : Type} {l : List α} {i : Nat} {a : α} (h : l[i]? = some a) :
+    ∃ b, l.getLast? = some b := by
+  cases hl : l.getLast? with
+  | none => rw [List.getLast?_eq_none_iff] at hl; subst hl; simp at h
+  | some b => exact ⟨b, rfl⟩
+
+theorem inAnotherChunk_ok (hc : CfgOK cfg) {s : State} (h : GeomInv cfg s) (hr : RespsOK cfg s) (k : Kind)
+    {L : Layout} {hints : Hints} (hL : L.Valid) (hh : hints.sma = true → L.align ∣ L.size)
+    (hk : k = .range → L.align ∣ L.size) :
+    (∀ s' r, inAnotherChunk cfg k s L hints = .ok (s', r) → SlowPost cfg L s s' r) ∧
+    (BaseOK cfg s L → ∃ s' r, inAnotherChunk cfg k s L hints = .ok (s', r)) := by
+  rw [inAnotherChunk_eq]
+  cases hcur : s.cur with
+  | claimed =>
+    simp only
+    refine ⟨?_, fun _ => ⟨_, _, rfl⟩⟩
+    intro s' r he
+    cases he
+    exact ⟨h, hr, rfl, fun hx => (by rw [hcur] at hx; cases hx), fun v hv => (by cases hv), Or.inl (SameShape.refl _)⟩
+  | unallocated =>
+    simp only [newChunkForCapacity_eq hc hL]
+    cases hs : Spec.calcSize cfg.up cfg.hdr (Nat.max (Spec.hintFromCapacity cfg.up cfg.hdr L) cfg.minChunk) with
+    | none =>
+      refine ⟨?_, fun _ => ⟨_, _, rfl⟩⟩
+      intro s' r he
+      cases he
+      exact ⟨h, hr, rfl, fun _ => ⟨hcur, SameShape.refl _⟩, fun v hv => (by cases hv), Or.inl (SameShape.refl _)⟩
+    | some size =>
+      have hreq : requestSize cfg s L = some size := by
+        unfold requestSize; simp only [hcur]; exact hs
+      have hhint : Spec.hintFromCapacity cfg.up cfg.hdr L ≤
+          Nat.max (Spec.hintFromCapacity cfg.up cfg.hdr L) cfg.minChunk := by
+        rw [Lemmas.Size.natmax]; omega
+      obtain ⟨f1, f2⟩ := freshTry_newChunk hc h hr k hL hh hk hhint hs (hints := hints)
+      refine ⟨?_, fun hb => f2 (hb size hreq)⟩
+      intro s' r he
+      have fp := f1 s' r he
+      refine ⟨fp.inv, fp.resps, fp.minAlign, ?_, fun v hv => ⟨_, (fp.ok v hv).1⟩, ?_⟩
+      · intro hx
+        cases r with
+        | error e => exact ⟨hcur, (fp.err e rfl).1⟩
+        | ok v => rw [(fp.ok v rfl).1] at hx; cases hx
+      cases r with
+      | error e => exact Or.inl (fp.err e rfl).1
+      | ok v =>
+        obtain ⟨e1, c, e2, e3⟩ := fp.ok v rfl
+        exact Or.inr ⟨c, size, hreq, e2, e3, e1⟩
+  | chunk i =>
+    obtain ⟨o, s1, w1, w2, w3, w4, w5, w6, w7, w8⟩ :=
+      walkNext_ok hc k hL hh (s.chunks.length - (i+1)) i s h ⟨i, hcur⟩
+    simp only [w1, r_ok_bind]
+    have hr1 : RespsOK cfg s1 := by intro x hx; rw [w5] at hx; exact hr x hx
+    cases o with
+    | some x =>
+      obtain ⟨v, s''⟩ := x
+      have := w8 v s'' rfl
+      subst this
+      refine ⟨?_, fun _ => ⟨_, _, rfl⟩⟩
+      intro s' r he
+      cases he
+      exact ⟨w2, hr1, w4, fun hx => (by obtain ⟨j, hj⟩ := w7; rw [hj] at hx; cases hx), fun _ _ => w7, Or.inl w3⟩
+    | none =>
+      obtain ⟨j, hj⟩ := w7
+      obtain ⟨cj, hcj, _⟩ := w2.cur j hj
+      obtain ⟨last, hlast⟩ := getLast?_isSome_of_getElem? hcj
+      obtain ⟨last', hlast', hsz⟩ := w3.getLast_size hlast
+      simp only [appendFor_eq hc hL hlast]
+      cases hs : Spec.calcSize cfg.up cfg.hdr
+          (Nat.max (Nat.max (Spec.hintFromCapacity cfg.up cfg.hdr L) (2 * last.size)) cfg.minChunk) with
+      | none =>
+        refine ⟨?_, fun _ => ⟨_, _, rfl⟩⟩
+        intro s' r he
+        cases he
+        exact ⟨w2, hr1, w4, fun hx => (by rw [hj] at hx; cases hx), fun v hv => (by cases hv), Or.inl w3⟩
+      | some size =>
+        have hreq : requestSize cfg s L = some size := by
+          unfold requestSize; simp only [hcur, hlast', hsz]; exact hs
+        have hhint : Spec.hintFromCapacity cfg.up cfg.hdr L ≤
+            Nat.max (Nat.max (Spec.hintFromCapacity cfg.up cfg.hdr L) (2 * last.size)) cfg.minChunk := by
+          rw [Lemmas.Size.natmax, Lemmas.Size.natmax]; omega
+        obtain ⟨f1, f2⟩ := freshTry_newChunk hc w2 hr1 k hL hh hk hhint hs (hints := hints)
+        refine ⟨?_, ?_⟩
+        · intro s' r he
+          have fp := f1 s' r he
+          refine ⟨fp.inv, fp.resps, fp.minAlign.trans w4, ?_, fun v hv => ⟨_, (fp.ok v hv).1⟩, ?_⟩
+          · intro hx
+            cases r with
+            | error e => rw [(fp.err e rfl).2, hj] at hx; cases hx
+            | ok v => rw [(fp.ok v rfl).1] at hx; cases hx
+          cases r with
+          | error e => exact Or.inl (w3.trans (fp.err e rfl).1)
+          | ok v =>
+            obtain ⟨e1, c, e2, e3⟩ := fp.ok v rfl
+            refine Or.inr ⟨c, size, hreq, ?_, e3, ?_⟩
+            · rw [e2]; congr 1
+            · rw [e1, w3.length]
+        · intro hb
+          obtain ⟨r0, rest, hrs, hok⟩ := hb size hreq
+          exact f2 ⟨r0, rest, by rw [w5]; exact hrs, hok⟩
+
+/-! ## fast path + slow path -/
+
+theorem SlowPost.map {α β : Type} {cfg : Cfg} {L : Layout} {s s' : State} {r : Except AErr α} (f : α → β)
+    (p : SlowPost cfg L s s' r) : SlowPost cfg L s s' (r.map f) := by
+  refine ⟨p.inv, p.resps, p.minAlign, p.unalloc, ?_, p.shape⟩
+  intro v hv
+  cases r with
+  | error e => cases hv
+  | ok a => exact p.cur_ok a rfl
+
+theorem allocGeneric_ok (hc : CfgOK cfg) {s : State} (h : GeomInv cfg s) (hr : RespsOK cfg s) (k : Kind)
+    {L : Layout} {hints hSlow : Hints} (hL : L.Valid) (hh : hints.sma = true → L.align ∣ L.size)
+    (hhs : hSlow.sma = true → L.align ∣ L.size) (hk : k = .range → L.align ∣ L.size) :
+    (∀ s' r, allocGeneric cfg k s L hints hSlow = .ok (s', r) → SlowPost cfg L s s' r) ∧
+    (BaseOK cfg s L → ∃ s' r, allocGeneric cfg k s L hints hSlow = .ok (s', r)) := by
+  unfold allocGeneric
+  simp only [tryCur_eq hc h k hL hh, r_ok_bind]
+  cases ht : tryCurSpec cfg k s L with
+  | none => exact inAnotherChunk_ok hc h hr k hL hhs hk
+  | some x =>
+    obtain ⟨v, s1⟩ := x
+    obtain ⟨g1, g2, g3, g4, g5, g6⟩ := tryCurSpec_inv hc h hL ht
+    obtain ⟨j, hj⟩ := tryCurSpec_isChunk hL ht
+    refine ⟨?_, fun _ => ⟨_, _, rfl⟩⟩
+    intro s' r he
+    cases he
+    refine ⟨g1, fun x hx => hr x (g5 ▸ hx), g4, ?_, fun _ _ => ⟨j, g3.trans hj⟩, Or.inl g2⟩
+    intro hx
+    rw [g3, hj] at hx; cases hx
+
+theorem alloc_ok (hc : CfgOK cfg) {s : State} (h : GeomInv cfg s) (hr : RespsOK cfg s) {L : Layout} (hL : L.Valid) :
+    (∀ s' r, alloc cfg s L = .ok (s', r) → SlowPost cfg L s s' r) ∧
+    (BaseOK cfg s L → ∃ s' r, alloc cfg s L = .ok (s', r)) := by
+  have hcu : Hints.custom.sma = true → L.align ∣ L.size := fun hx => by cases hx
+  obtain ⟨a1, a2⟩ := allocGeneric_ok hc h hr .alloc hL hcu hcu (fun hx => by cases hx)
+    (hints := Hints.custom) (hSlow := Hints.custom)
+  unfold alloc
+  constructor
+  · intro s' r he
+    cases hg : allocGeneric cfg .alloc s L Hints.custom Hints.custom with
+    | error f => rw [hg] at he; cases he
+    | ok x =>
+      obtain ⟨s1, r1⟩ := x
+      rw [hg] at he
+      cases he
+      exact (a1 _ _ hg).map _
+  · intro hb
+    obtain ⟨s1, r1, hg⟩ := a2 hb
+    rw [hg]
+    exact ⟨_, _, rfl⟩
+
+/-! ## chunk sizes keep increasing -/
+
+theorem sizes_of_shape {l l' : List Chunk} (h : l'.map Chunk.shape = l.map Chunk.shape) :
+    l'.map (·.size) = l.map (·.size) := by
+  have := congrArg (List.map (fun x : Nat × Nat × Nat × Nat × Nat => x.2.1)) h
+  simp only [List.map_map] at this
+  exact this
+
+theorem SlowPost.unallocEmpty {α : Type} {L : Layout} {s s' : State} {r : Except AErr α}
+    (p : SlowPost cfg L s s' r) (hu : UnallocEmpty s) : UnallocEmpty s' := by
+  intro hx
+  obtain ⟨h1, h2⟩ := p.unalloc hx
+  have h3 := h2.length
+  rw [hu h1] at h3
+  exact List.eq_nil_of_length_eq_zero h3
+
+theorem SlowPost.sizesIncreasing {α : Type} (hc : CfgOK cfg) {L : Layout} {s s' : State} {r : Except AErr α}
+    (p : SlowPost cfg L s s' r) (h : GeomInv cfg s) (hs : SizesIncreasing s) (hu : UnallocEmpty s) :
+    SizesIncreasing s' := by
+  rcases p.shape with hsh | ⟨c, size, hreq, hsh, hle, hcur'⟩
+  · exact hsh.sizesIncreasing hs
+  · have hsz : s'.chunks.map (·.size) = s.chunks.map (·.size) ++ [c.size] := by
+      have := congrArg (List.map (fun x : Nat × Nat × Nat × Nat × Nat => x.2.1)) hsh
+      simp only [List.map_map, List.map_append, List.map_cons, List.map_nil] at this
+      exact this
+    intro i a b ha hb
+    have ha' : (s'.chunks.map (·.size))[i]? = some a.size := by rw [List.getElem?_map, ha]; rfl
+    have hb' : (s'.chunks.map (·.size))[i+1]? = some b.size := by rw [List.getElem?_map, hb]; rfl
+    rw [hsz, List.getElem?_append, List.length_map] at ha' hb'
+    by_cases hlt : i + 1 < s.chunks.length
+    · rw [if_pos (by omega)] at ha'
+      rw [if_pos hlt] at hb'
+      rw [List.getElem?_map] at ha' hb'
+      cases ha2 : s.chunks[i]? with
+      | none => rw [ha2] at ha'; cases ha'
+      | some a2 =>
+        cases hb2 : s.chunks[i+1]? with
+        | none => rw [hb2] at hb'; cases hb'
+        | some b2 =>
+          rw [ha2] at ha'; rw [hb2] at hb'
+          simp only [Option.map_some, Option.some.injEq] at ha' hb'
+          have := hs i a2 b2 ha2 hb2
+          omega
+    · rw [if_neg hlt] at hb'
+      have hi1 : i + 1 = s.chunks.length := by
+        cases hd : i + 1 - s.chunks.length with
+        | zero => omega
+        | succ n => rw [hd] at hb'; simp at hb'
+      rw [if_pos (by omega), List.getElem?_map] at ha'
+      rw [hi1, Nat.sub_self] at hb'
+      simp only [List.getElem?_cons_zero, Option.some.injEq] at hb'
+      cases ha2 : s.chunks[i]? with
+      | none => rw [ha2] at ha'; cases ha'
+      | some a2 =>
+        rw [ha2] at ha'
+        simp only [Option.map_some, Option.some.injEq] at ha'
+        -- `a2` is the last chunk of `s`
+        have hlast : s.chunks.getLast? = some a2 := by
+          rw [List.getLast?_eq_getElem?, ← hi1]; exact ha2
+        have hw := h.chunks i a2 ha2
+        have h32 := hc.hdr.ge
+        have hhl := hw.hdr_le
+        unfold requestSize at hreq
+        cases hcur : s.cur with
+        | claimed => rw [hcur] at hreq; cases hreq
+        | unallocated =>
+          have := hu hcur
+          rw [this] at ha2; simp at ha2
+        | chunk j =>
+          rw [hcur] at hreq
+          simp only [hlast] at hreq
+          have hcomm : Nat.max (Nat.max (Spec.hintFromCapacity cfg.up cfg.hdr L) (2 * a2.size)) cfg.minChunk =
+              Nat.max (Nat.max (Spec.hintFromCapacity cfg.up cfg.hdr L) cfg.minChunk) (2 * a2.size) := by
+            simp only [Lemmas.Size.natmax]; omega
+          rw [hcomm] at hreq
+          have := C12.grow_ge hc.hdr hreq
+          omega
+
 end
 end Arena
